@@ -210,6 +210,12 @@ def run_case(case, ctx):
                 r2 = lib(p.dereference)
                 if isinstance(r2, Err) or libside.cplain(r2) != libside.cplain(r):
                     raise Violation("dereference-unstable", f"{what}: second dereference gave {r2!r}: {desc(what)}")
+                if r2 is not r:
+                    # repeated access hands out the target that was read the first time (whatever its value: zero,
+                    # empty string, all-zero structure), so a change made through one access is seen through the next
+                    raise Violation("dereference-unstable", f"{what}: the second dereference returned another object ({r2!r}) than the first ({r!r}): {desc(what)}")
+                if not r:
+                    ctx.count("deref:falsy-target-accessed-twice")
                 ctx.count(f"deref:ok:{kind}")
                 firsts.append((what, p, libside.cplain(r)))
                 # position independence: an uncached copy of the pointer dereferenced while the stream stands at the
